@@ -12,6 +12,8 @@ import time
 import traceback
 
 VERIF = os.path.dirname(os.path.dirname(os.path.abspath(__file__)))
+# where evidence and replay files go: /verif/evidence unless a mutation campaign redirects its (mutated-tree) runs
+EVDIR = os.environ.get('VERIF_EVIDENCE_DIR') or os.path.join(VERIF, 'evidence')
 LEAN_DIR = os.path.join(VERIF, 'lean')
 ALLOWED_AXIOMS = {'propext', 'Classical.choice', 'Quot.sound'}
 FORBIDDEN = re.compile(r'\b(sorry|admit|native_decide|bv_decide|implemented_by|unsafe)\b|^\s*axiom\s|maxHeartbeats\s+0', re.M)
@@ -190,6 +192,16 @@ def run_chunk(job):
             continue
         if r is None:
             agg['skipped'] += 1
+            try:
+                from .props import common as _common
+                if _common.LAST_DEGENERATE:
+                    agg.setdefault('degenerate', 0)
+                    agg['degenerate'] += 1
+                    if 'degenerate_sample' not in agg:
+                        agg['degenerate_sample'] = _common.LAST_DEGENERATE[-1]
+                    del _common.LAST_DEGENERATE[:]
+            except Exception:  # noqa
+                pass
             continue
         agg['evaluations'] += r.get('evaluations', 1)
         agg['hashes'].extend(r.get('hashes', []))
@@ -208,7 +220,7 @@ def run_chunk(job):
 def run_streams(modname, plan, seed, workers=None):
     """plan = [(stream, n_cases, params)]; seeds derive from the one VERIF_SEED"""
     import multiprocessing as mp
-    workers = workers or min(16, os.cpu_count() or 4)
+    workers = workers or int(os.environ.get('VERIF_WORKERS', 0) or 0) or min(16, os.cpu_count() or 4)
     jobs = []
     for si, (stream, n, params) in enumerate(plan):
         seeds = [seed * 1000003 + si * 100003 + i for i in range(n)]
@@ -301,6 +313,22 @@ def main_check(prop_id, modname, argv):
         plan = [(st, (n if n <= 1 else max(1, int(n * scale))), prm) for st, n, prm in plan]
     results = run_streams(modname, plan, seed, args.workers)
     failures = [f for r in results for f in r['failures']]
+    # a generated deck with nothing to convert makes the converter's progress bars fail on max([]); such decks are
+    # skipped. A few are normal; when a sizeable part of a stream's valid decks ends that way the converter has
+    # stopped converting them, and that is a failure of its own with the deck as the replay
+    by_stream = {}
+    for r in results:
+        b = by_stream.setdefault(r['stream'], dict(n=0, deg=0, sample=None))
+        b['n'] += r['evaluations'] + r.get('skipped', 0)
+        b['deg'] += r.get('degenerate', 0)
+        if b['sample'] is None and r.get('degenerate_sample'):
+            b['sample'] = r['degenerate_sample']
+    for st, b in by_stream.items():
+        if b['deg'] >= 8 and b['deg'] > 0.2 * max(1, b['n']):
+            failures.append(Failure(kind='violation', stream=st, seed=None,
+                                    message='%d of %d valid generated decks of stream %s were not converted at all (%s)'
+                                    % (b['deg'], b['n'], st, (b['sample'] or {}).get('error')),
+                                    signature={'stream': st, 'class': 'nothing-converted'}, replay=b['sample']))
     violations = [f for f in failures if f['kind'] == 'violation']
     disagreements = [f for f in failures if f['kind'] == 'disagreement']
     infra = [f for f in failures if f['kind'] == 'infra']
@@ -325,7 +353,7 @@ def main_check(prop_id, modname, argv):
         search_note = 'search ran %d extra cases' % sum(n for _, n, _ in splan) if splan else 'no search stream'
 
     # 6 classify --------------------------------------------------------------------------------
-    rdir = os.path.join(VERIF, 'evidence', 'replay')
+    rdir = os.path.join(EVDIR, 'replay')
     os.makedirs(rdir, exist_ok=True)
     for fn in os.listdir(rdir):            # replay files of earlier runs of this check are stale
         if fn.startswith(prop_id + '_'):
@@ -349,7 +377,7 @@ def main_check(prop_id, modname, argv):
             continue
         seen_sig.add(h)
         n_viol += 1
-        path = os.path.join(VERIF, 'evidence', 'replay', '%s_%s.json' % (prop_id, h))
+        path = os.path.join(EVDIR, 'replay', '%s_%s.json' % (prop_id, h))
         json.dump(dict(property=prop_id, kind='violation', stream=f.get('stream'), seed=f.get('seed'),
                        message=f.get('message'), signature=f.get('signature'), payload=f.get('replay')),
                   open(path, 'w'), indent=1, default=str)
@@ -362,7 +390,7 @@ def main_check(prop_id, modname, argv):
         for f in disagreements[:5]:
             what.append('correspondence %s: %s' % (f.get('stream'), (f.get('message') or '')[:400]))
         h = sig_hash(what)
-        path = os.path.join(VERIF, 'evidence', 'replay', '%s_unshown_%s.json' % (prop_id, h))
+        path = os.path.join(EVDIR, 'replay', '%s_unshown_%s.json' % (prop_id, h))
         json.dump(dict(property=prop_id, kind='no-longer-shown', broken=what,
                        first_disagreement=(disagreements[0].get('replay') if disagreements else None),
                        search=search_note), open(path, 'w'), indent=1, default=str)
@@ -398,7 +426,7 @@ def main_check(prop_id, modname, argv):
     )
     ev = dict(property_id=prop_id, tier=tier, seed=seed, level=getattr(mod, 'LEVEL', 'proof'), coverage=cov,
               assumptions=getattr(mod, 'ASSUMPTIONS', []), wall_s=round(time.time() - t0, 2), violations=n_viol)
-    with open(os.path.join(VERIF, 'evidence', prop_id + '.json'), 'w') as fh:
+    with open(os.path.join(EVDIR, prop_id + '.json'), 'w') as fh:
         json.dump(ev, fh, indent=1, default=str)
     for l in log:
         print('# ' + l)
